@@ -12,6 +12,7 @@ import (
 	"os"
 	"os/exec"
 	"path/filepath"
+	"regexp"
 	"sort"
 	"strings"
 	"time"
@@ -140,6 +141,39 @@ func replay(pkgPath string, harnessNames []string, cases []replayCase, race bool
 	if err := cmd.Run(); err != nil {
 		return nil, fmt.Errorf("native replay build failed: %v\n%s", err, tail(out.String(), 3000))
 	}
+	// schedule-dependent counterexamples: a second binary in which every lock
+	// acquisition / release statement of the package under test is preceded by
+	// a random short pause (zzverif.Perturb), so that repeated runs cover
+	// interleavings inside the repository's own functions
+	binSched := ""
+	for k := range cases {
+		if cases[k].Sched && cases[k].Key != "" {
+			ov2 := map[string]string{}
+			for a, b := range ov {
+				ov2[a] = b
+			}
+			if perturbOverlay(filepath.Join(repoDir, rel), tmp, ov2) > 0 {
+				ovb2, _ := json.Marshal(map[string]any{"Replace": ov2})
+				ovFile2 := filepath.Join(tmp, "overlay_sched.json")
+				os.WriteFile(ovFile2, ovb2, 0644)
+				b2 := filepath.Join(tmp, "replay_sched.test")
+				args2 := []string{"test", "-c", "-vet=off", "-overlay", ovFile2, "-o", b2}
+				if race {
+					args2 = append(args2, "-race")
+				}
+				args2 = append(args2, "./"+rel)
+				c2 := exec.Command("go", args2...)
+				c2.Dir = repoDir
+				c2.Env = append(os.Environ(), "GOFLAGS=-mod=mod", "GOPROXY=off")
+				if out2, err := c2.CombinedOutput(); err == nil {
+					binSched = b2
+				} else {
+					fmt.Fprintln(os.Stderr, "note: perturbed replay binary not built:", tail(string(out2), 400))
+				}
+			}
+			break
+		}
+	}
 	results := make([]replayResult, len(cases))
 	for k := range cases {
 	  attempts := 1
@@ -148,7 +182,11 @@ func replay(pkgPath string, harnessNames []string, cases []replayCase, race bool
 	  }
 	  for att := 0; att < attempts; att++ {
 		ctx, cancel := context.WithTimeout(context.Background(), 60*time.Second)
-		c := exec.CommandContext(ctx, bin, "-test.run", "^TestVerifReplay$", "-test.count=1", "-test.timeout=50s")
+		useBin := bin
+		if attempts > 1 && binSched != "" && att%2 == 0 {
+			useBin = binSched
+		}
+		c := exec.CommandContext(ctx, useBin, "-test.run", "^TestVerifReplay$", "-test.count=1", "-test.timeout=50s")
 		c.Dir = filepath.Join(repoDir, rel)
 		if _, err := os.Stat(c.Dir); err != nil {
 			c.Dir = repoDir
@@ -637,4 +675,53 @@ func fnv32(s string) uint32 {
 		h *= 16777619
 	}
 	return h
+}
+
+var lockStmtRe = regexp.MustCompile(`(?m)^([ \t]+)([A-Za-z_][A-Za-z0-9_\.\[\]]*)\.(Lock|RLock|Unlock|RUnlock)\(\)[ \t]*$`)
+
+// perturbOverlay rewrites the non-test files of one package directory so that
+// every statement of the form x.Lock() / x.RLock() / x.Unlock() / x.RUnlock()
+// is preceded by zzverif.Perturb(). Returns the number of files rewritten.
+func perturbOverlay(dir, tmp string, ov map[string]string) int {
+	ents, _ := os.ReadDir(dir)
+	n := 0
+	for _, e := range ents {
+		name := e.Name()
+		if e.IsDir() || !strings.HasSuffix(name, ".go") || strings.HasSuffix(name, "_test.go") || strings.HasPrefix(name, "zz_verif") {
+			continue
+		}
+		p := filepath.Join(dir, name)
+		srcPath := p
+		if o, ok := ov[p]; ok {
+			srcPath = o
+		}
+		b, err := os.ReadFile(srcPath)
+		if err != nil {
+			continue
+		}
+		src := string(b)
+		if !lockStmtRe.MatchString(src) {
+			continue
+		}
+		src = lockStmtRe.ReplaceAllString(src, "${1}zzverifprt.Perturb()\n${1}${2}.${3}()")
+		k := strings.Index(src, "\npackage ")
+		if strings.HasPrefix(src, "package ") {
+			k = 0
+		} else if k >= 0 {
+			k++
+		} else {
+			continue
+		}
+		eol := strings.Index(src[k:], "\n")
+		if eol < 0 {
+			continue
+		}
+		src = src[:k+eol+1] + "import zzverifprt \"github.com/glyphlang/glyph/internal/zzverif\"\n" + src[k+eol+1:]
+		n++
+		out := filepath.Join(tmp, fmt.Sprintf("prt%d.go", n))
+		if os.WriteFile(out, []byte(src), 0644) == nil {
+			ov[p] = out
+		}
+	}
+	return n
 }
